@@ -1,6 +1,8 @@
 //! mp4verif: property-based testing / fuzzing harness for alfg/mp4-rust (see /verif/DESIGN.md).
 pub mod adv;
 pub mod alloc;
+pub mod boxes;
+pub mod libbox;
 pub mod driver;
 pub mod engine;
 pub mod gen;
